@@ -364,3 +364,329 @@ func b2ConstOf(p *core.Prog, rel, name string) (constant.Value, bool) {
 }
 
 func b2Join(ss []string) string { return strings.Join(ss, ", ") }
+
+// ---- origins: looking through captured variables and in-package helper parameters ----
+
+// b2Bindings returns the values bound to free variable fv wherever its closure
+// is created: in the enclosing function and, on an inlined variant of the
+// program, in the functions the enclosing helper was inlined into.
+func b2Bindings(fv *ssa.FreeVar) []ssa.Value {
+	fn := fv.Parent()
+	if fn == nil || fn.Pkg == nil {
+		return nil
+	}
+	idx := -1
+	for i, x := range fn.FreeVars {
+		if x == fv {
+			idx = i
+		}
+	}
+	var out []ssa.Value
+	for _, g := range b2AllPkgFuncs(fn.Prog, fn.Pkg) {
+		for _, b := range g.Blocks {
+			for _, in := range b.Instrs {
+				if mc, ok := in.(*ssa.MakeClosure); ok && mc.Fn == fn && idx >= 0 && idx < len(mc.Bindings) {
+					out = append(out, mc.Bindings[idx])
+				}
+			}
+		}
+	}
+	return out
+}
+
+// b2AllPkgFuncs lists the functions of an SSA package including closures that
+// are only reachable through a MakeClosure (closures of inlined helpers).
+func b2AllPkgFuncs(prog *ssa.Program, sp *ssa.Package) []*ssa.Function {
+	out := core.SSAPkgFuncs(prog, sp)
+	seen := map[*ssa.Function]bool{}
+	for _, f := range out {
+		seen[f] = true
+	}
+	for i := 0; i < len(out); i++ {
+		for _, b := range out[i].Blocks {
+			for _, in := range b.Instrs {
+				if mc, ok := in.(*ssa.MakeClosure); ok {
+					if g, ok := mc.Fn.(*ssa.Function); ok && !seen[g] && g.Blocks != nil {
+						seen[g] = true
+						out = append(out, g)
+					}
+				}
+			}
+		}
+	}
+	return out
+}
+
+// b2PkgFuncs is Prog.PkgFuncs plus the closures that visible functions create
+// although their lexical parent is hidden (on an inlined variant the closures of
+// an inlined helper are created by its callers and stay part of the program).
+func b2PkgFuncs(p *core.Prog, rel string) []*ssa.Function {
+	out := p.PkgFuncs(rel)
+	seen := map[*ssa.Function]bool{}
+	for _, f := range out {
+		seen[f] = true
+	}
+	for i := 0; i < len(out); i++ {
+		for _, b := range out[i].Blocks {
+			for _, in := range b.Instrs {
+				if mc, ok := in.(*ssa.MakeClosure); ok {
+					if g, ok := mc.Fn.(*ssa.Function); ok && !seen[g] && g.Blocks != nil && g.Synthetic == "" {
+						seen[g] = true
+						out = append(out, g)
+					}
+				}
+			}
+		}
+	}
+	return out
+}
+
+// b2StaticCallers lists the call sites of fn inside its own package, and
+// whether fn is only ever used as the static callee of such calls (it does not
+// escape as a value), so that its parameters stand exactly for those arguments.
+func b2StaticCallers(p *core.Prog, fn *ssa.Function) (sites []ssa.CallInstruction, closed bool) {
+	if fn == nil || fn.Pkg == nil || fn.Parent() != nil {
+		return nil, false
+	}
+	if o := fn.Object(); o == nil || o.Exported() {
+		return nil, false // callable from anywhere
+	}
+	closed = true
+	for _, g := range b2PkgFuncs(p, strings.TrimPrefix(fn.Pkg.Pkg.Path(), core.Mod+"/")) {
+		for _, b := range g.Blocks {
+			for _, in := range b.Instrs {
+				if c, ok := in.(ssa.CallInstruction); ok && c.Common().StaticCallee() == fn {
+					sites = append(sites, c)
+					for _, a := range c.Common().Args {
+						if a == ssa.Value(fn) {
+							closed = false
+						}
+					}
+					continue
+				}
+				for _, op := range in.Operands(nil) {
+					if *op == ssa.Value(fn) {
+						closed = false
+					}
+				}
+			}
+		}
+	}
+	return sites, closed
+}
+
+// b2Origins resolves v to the values it stands for: it looks through
+// conversions, spill slots, captured variables (the value bound when the
+// closure is created; a captured variable assigned once stands for that
+// value) and parameters of unexported in-package functions that are only
+// called statically (the arguments of all their call sites). Values that
+// cannot be resolved further are returned as they are.
+func b2Origins(p *core.Prog, v ssa.Value) []ssa.Value {
+	var out []ssa.Value
+	seen := map[ssa.Value]bool{}
+	var walk func(v ssa.Value, depth int)
+	walk = func(v ssa.Value, depth int) {
+		v = core.Strip(core.Forward(core.Strip(v)))
+		if seen[v] {
+			return
+		}
+		seen[v] = true
+		if depth > 6 {
+			out = append(out, v)
+			return
+		}
+		switch x := v.(type) {
+		case *ssa.UnOp:
+			if x.Op == token.MUL {
+				if roots, ok := b2AddrRoots(x.X); ok {
+					all := true
+					var vals []ssa.Value
+					for _, al := range roots {
+						var val ssa.Value
+						n := 0
+						for _, r := range *al.Referrers() {
+							if st, ok := r.(*ssa.Store); ok && st.Addr == al {
+								val = st.Val
+								n++
+							}
+						}
+						if n != 1 {
+							all = false
+						}
+						vals = append(vals, val)
+					}
+					if all && len(vals) > 0 {
+						for _, val := range vals {
+							walk(val, depth+1)
+						}
+						return
+					}
+				}
+			}
+		case *ssa.FreeVar:
+			if bs := b2Bindings(x); len(bs) > 0 {
+				for _, b := range bs {
+					walk(b, depth+1)
+				}
+				return
+			}
+		case *ssa.Parameter:
+			fn := x.Parent()
+			if sites, closed := b2StaticCallers(p, fn); closed {
+				if len(sites) == 0 {
+					return // dead helper (inlined everywhere): its parameters stand for nothing
+				}
+				idx := -1
+				for i, q := range fn.Params {
+					if q == x {
+						idx = i
+					}
+				}
+				if idx >= 0 {
+					for _, c := range sites {
+						if a := core.Args(c); idx < len(a) {
+							walk(a[idx], depth+1)
+						}
+					}
+					return
+				}
+			}
+		}
+		out = append(out, v)
+	}
+	walk(v, 0)
+	return out
+}
+
+// b2AllOrigins reports whether every origin of v satisfies pred.
+func b2AllOrigins(p *core.Prog, v ssa.Value, pred func(ssa.Value) bool) bool {
+	os := b2Origins(p, v)
+	if len(os) == 0 {
+		return false
+	}
+	for _, o := range os {
+		if !pred(o) {
+			return false
+		}
+	}
+	return true
+}
+
+// b2BoolHelperCall decomposes v = h(…, x, …) where h is a static in-package
+// function returning one bool and exactly one argument satisfies isVar.
+func b2BoolHelperCall(v ssa.Value, isVar func(ssa.Value) bool) (*ssa.Function, int) {
+	c, ok := v.(*ssa.Call)
+	if !ok {
+		return nil, -1
+	}
+	h := c.Call.StaticCallee()
+	if h == nil || h.Blocks == nil || c.Call.IsInvoke() {
+		return nil, -1
+	}
+	if b, ok := c.Type().Underlying().(*types.Basic); !ok || b.Kind() != types.Bool {
+		return nil, -1
+	}
+	idx := -1
+	for i, a := range c.Call.Args {
+		if isVar(a) {
+			if idx >= 0 {
+				return nil, -1
+			}
+			idx = i
+		}
+	}
+	if idx < 0 || idx >= len(h.Params) {
+		return nil, -1
+	}
+	return h, idx
+}
+
+// b2StrConstsDeep is b2StrConstsCompared extended by the constants that boolean
+// helpers applied to the variable compare it with.
+func b2StrConstsDeep(fn *ssa.Function, isVar func(ssa.Value) bool) []string {
+	set := map[string]bool{}
+	for _, c := range b2StrConstsCompared(fn, isVar) {
+		set[c] = true
+	}
+	for _, b := range fn.Blocks {
+		for _, in := range b.Instrs {
+			v, ok := in.(ssa.Value)
+			if !ok {
+				continue
+			}
+			if h, i := b2BoolHelperCall(v, isVar); h != nil {
+				for _, c := range b2StrConstsCompared(h, b2Param(h, i)) {
+					set[c] = true
+				}
+			}
+		}
+	}
+	var out []string
+	for c := range set {
+		out = append(out, c)
+	}
+	sort.Strings(out)
+	return out
+}
+
+// b2AssumeEqDeep returns the CFG edges of fn that cannot be taken when the
+// value matched by isVar equals the string s: conditions `x == c`, `x != c`
+// and `h(x)` for a boolean helper h that b2EvalBoolFn can evaluate.
+func b2AssumeEqDeep(fn *ssa.Function, isVar func(ssa.Value) bool, s string) []core.Edge {
+	consistent := core.Atom(func(v ssa.Value) (bool, bool) {
+		if bo, ok := v.(*ssa.BinOp); ok && (bo.Op == token.EQL || bo.Op == token.NEQ) {
+			var c string
+			var okc bool
+			if isVar(bo.X) {
+				c, okc = core.ConstString(bo.Y)
+			} else if isVar(bo.Y) {
+				c, okc = core.ConstString(bo.X)
+			}
+			if !okc {
+				return false, false
+			}
+			return true, (c == s) == (bo.Op == token.EQL)
+		}
+		if h, i := b2BoolHelperCall(v, isVar); h != nil {
+			res, err := b2EvalBoolFn(h, i, s)
+			if err != nil {
+				return false, false
+			}
+			return true, res
+		}
+		return false, false
+	})
+	_, infeasible := core.EdgesOf(fn, consistent)
+	return infeasible
+}
+
+// b2AddrRoots resolves the address of a (possibly captured) variable to the
+// allocations it can denote; ok=false when it is not a captured/local variable.
+func b2AddrRoots(addr ssa.Value) ([]*ssa.Alloc, bool) {
+	var out []*ssa.Alloc
+	seen := map[ssa.Value]bool{}
+	ok := true
+	var walk func(a ssa.Value, d int)
+	walk = func(a ssa.Value, d int) {
+		if seen[a] || d > 6 {
+			return
+		}
+		seen[a] = true
+		switch x := a.(type) {
+		case *ssa.Alloc:
+			out = append(out, x)
+		case *ssa.FreeVar:
+			bs := b2Bindings(x)
+			if len(bs) == 0 {
+				ok = false
+			}
+			for _, b := range bs {
+				walk(b, d+1)
+			}
+		default:
+			ok = false
+		}
+	}
+	walk(addr, 0)
+	return out, ok && len(out) > 0
+}
